@@ -759,6 +759,7 @@ func genDDL(r *hx.Rng) ddlCase {
 	nt := r.Range(1, 3)
 	type tcol struct{ name, typ string }
 	tables := map[string][]tcol{}
+	idxNames := map[string][]string{} // table -> secondary index names
 	var names []string
 	colName := func() string { return hx.Pick(r, []string{"a", "b", "c", "d", "val", "Name", "x1", "y", "z", "created", "n"}) }
 	for t := 0; t < nt; t++ {
@@ -799,8 +800,10 @@ func genDDL(r *hx.Rng) ddlCase {
 			c := cols[1]
 			if !strings.HasPrefix(c.typ, "json") && !strings.HasPrefix(c.typ, "text") && !strings.HasPrefix(c.typ, "blob") {
 				defs = append(defs, fmt.Sprintf("%skey i_%s (`%s`)", ifs(r.Chance(1, 3), "unique ", ""), strings.ToLower(c.name), c.name))
+				idxNames[tn] = append(idxNames[tn], "i_"+strings.ToLower(c.name))
 			} else if !strings.HasPrefix(c.typ, "json") {
 				defs = append(defs, fmt.Sprintf("key i_%s (`%s`(10))", strings.ToLower(c.name), c.name))
+				idxNames[tn] = append(idxNames[tn], "i_"+strings.ToLower(c.name))
 			}
 		}
 		if r.Chance(1, 3) {
@@ -815,7 +818,41 @@ func genDDL(r *hx.Rng) ddlCase {
 		if cols == nil {
 			continue
 		}
-		switch r.Intn(7) {
+		switch r.Intn(12) {
+		case 7, 8:
+			// in-place mutation of an index object: RENAME INDEX / RENAME KEY
+			if ix := idxNames[tn]; len(ix) > 0 {
+				j := r.Intn(len(ix))
+				nn := ix[j] + "_r"
+				d.Stmts = append(d.Stmts, fmt.Sprintf("alter table `%s` rename %s `%s` to `%s`", tn, hx.Pick(r, []string{"index", "key"}), ix[j], nn))
+				ix[j] = nn
+			} else if len(cols) > 1 {
+				nn := fmt.Sprintf("ix_new%d", i)
+				d.Stmts = append(d.Stmts, fmt.Sprintf("alter table `%s` add index `%s` (pk)", tn, nn))
+				idxNames[tn] = append(idxNames[tn], nn)
+			}
+		case 9:
+			// drop an index and re-create one under the same name on another column list
+			if ix := idxNames[tn]; len(ix) > 0 {
+				j := r.Intn(len(ix))
+				d.Stmts = append(d.Stmts, fmt.Sprintf("alter table `%s` drop index `%s`", tn, ix[j]))
+				d.Stmts = append(d.Stmts, fmt.Sprintf("alter table `%s` add index `%s` (pk)", tn, ix[j]))
+			}
+		case 10:
+			// column default / comment changed in place
+			if len(cols) > 1 {
+				j := r.Range(1, len(cols)-1)
+				if strings.HasPrefix(cols[j].typ, "int") || strings.HasPrefix(cols[j].typ, "bigint") || strings.HasPrefix(cols[j].typ, "double") {
+					d.Stmts = append(d.Stmts, fmt.Sprintf("alter table `%s` alter column `%s` set default 42", tn, cols[j].name))
+				} else {
+					d.Stmts = append(d.Stmts, fmt.Sprintf("alter table `%s` alter column `%s` drop default", tn, cols[j].name))
+				}
+			}
+		case 11:
+			d.Stmts = append(d.Stmts, fmt.Sprintf("alter table `%s` add constraint chk_n%d check (pk < 1000000)", tn, i))
+			if r.Bool() {
+				d.Stmts = append(d.Stmts, fmt.Sprintf("alter table `%s` drop constraint chk_n%d", tn, i))
+			}
 		case 0, 1:
 			cn := colName() + fmt.Sprint(r.Intn(9))
 			dup := false
@@ -857,9 +894,12 @@ func genDDL(r *hx.Rng) ddlCase {
 			d.Stmts = append(d.Stmts, fmt.Sprintf("drop table `%s`", tn))
 			d.Stmts = append(d.Stmts, fmt.Sprintf("create table `%s` (pk int primary key, `%s` %s, fresh%d int)", tn, cols[len(cols)-1].name, cols[len(cols)-1].typ, i))
 			tables[tn] = []tcol{{"pk", "int"}, cols[len(cols)-1], {fmt.Sprintf("fresh%d", i), "int"}}
+			idxNames[tn] = nil
 		case 6:
 			d.Stmts = append(d.Stmts, fmt.Sprintf("rename table `%s` to `%s_n`", tn, tn))
 			tables[tn+"_n"] = cols
+			idxNames[tn+"_n"] = idxNames[tn]
+			delete(idxNames, tn)
 			delete(tables, tn)
 			for k := range names {
 				if names[k] == tn {
@@ -869,6 +909,14 @@ func genDDL(r *hx.Rng) ddlCase {
 		}
 	}
 	return d
+}
+
+var fixedDDL = [][]string{
+	{"create table `fx` (pk int not null, a int, b varchar(20), primary key (pk), key i_a (a), unique key u_b (b))",
+		"alter table `fx` rename index `i_a` to `i_a2`", "alter table `fx` rename column `a` to `a2`",
+		"alter table `fx` alter column `a2` set default 5", "alter table `fx` rename key `u_b` to `u_b2`"},
+	{"create table `fk0` (a int, b int, key i_b (b))", "alter table `fk0` rename index `i_b` to `i_b_r`",
+		"alter table `fk0` drop index `i_b_r`", "alter table `fk0` add index `i_b` (b, a)"},
 }
 
 type dbState struct {
@@ -1014,7 +1062,8 @@ func runDDL(e *hx.Env, d ddlCase) {
 		if df := diffState(states[0], states[1]); df != "" {
 			e.Rep.Violate("ddl/clones", "same DDL on two fresh databases: "+df, d)
 		}
-		// two branches
+		// two branches: the leading CREATE TABLEs are committed on main, the remaining statements run on b1 and b2;
+		// after b1 ran them, the pre-DDL schema is loaded again in the same process (main, b2 before its DDL, AS OF)
 		dir := filepath.Join(e.Scratch, fmt.Sprintf("ddl%d_b", ddlSeq))
 		eng, err := sqleng.New(dir, sqleng.Options{})
 		if err != nil {
@@ -1023,18 +1072,58 @@ func runDDL(e *hx.Env, d ddlCase) {
 		defer func() { eng.Close(); os.RemoveAll(dir) }()
 		s, _ := eng.NewSession()
 		s.MustExec("create table base_t (k int primary key)")
+		nCreate := 0
+		for nCreate < len(d.Stmts) && strings.HasPrefix(d.Stmts[nCreate], "create table") {
+			nCreate++
+		}
+		pre := ddlCase{Stream: d.Stream, Stmts: d.Stmts[:nCreate]}
+		post := ddlCase{Stream: d.Stream, Stmts: d.Stmts[nCreate:]}
+		applyDDL(s, pre)
 		s.MustExec("call dolt_commit('-Am','base')")
+		base, err := snapshot(s)
+		if err != nil {
+			return "snapshot base: " + err.Error()
+		}
 		var bst []*dbState
-		for _, b := range []string{"b1", "b2"} {
+		var berrs [][]string
+		for bi, b := range []string{"b1", "b2"} {
 			s.MustExec("call dolt_checkout('main')")
 			s.MustExec("call dolt_checkout('-b','" + b + "')")
-			applyDDL(s, d)
+			if bi == 1 {
+				// b2 starts from the committed base: it must still read the pre-DDL schema
+				cur, err := snapshot(s)
+				if err != nil {
+					e.Rep.Violate("ddl/preimage", "after the DDL ran on b1, the pre-DDL schema can no longer be read on a fresh branch: "+err.Error(), d)
+					return ""
+				}
+				if df := diffSchemaOnly(base, cur); df != "" {
+					e.Rep.Violate("ddl/preimage", "after the DDL ran on b1, a fresh branch of the base commit shows a different schema: "+df, d)
+					return ""
+				}
+			}
+			berrs = append(berrs, applyDDL(s, post))
 			st, err := snapshot(s)
 			if err != nil {
-				return "snapshot: " + err.Error()
+				e.Rep.Violate("ddl/branches", "schema unreadable on "+b+" after the DDL: "+err.Error(), d)
+				return ""
 			}
 			bst = append(bst, st)
 			s.MustExec("call dolt_commit('--allow-empty','-Am','ddl on " + b + "')")
+			// AS OF the base commit: every table that existed there must still show its old definition
+			for t, want := range base.shows {
+				r := s.Exec(fmt.Sprintf("show create table `%s` as of 'main'", t))
+				if r.Err != nil || len(r.Rows) != 1 {
+					e.Rep.Violate("ddl/as-of", fmt.Sprintf("SHOW CREATE TABLE %s AS OF 'main' fails after the DDL on %s: %v", t, b, r.Err), d)
+					return ""
+				}
+				if r.Rows[0][1] != want {
+					e.Rep.Violate("ddl/as-of", fmt.Sprintf("SHOW CREATE TABLE %s AS OF 'main' changed after the DDL on %s: %q vs %q", t, b, r.Rows[0][1], want), d)
+					return ""
+				}
+			}
+		}
+		if strings.Join(berrs[0], ",") != strings.Join(berrs[1], ",") {
+			e.Rep.Violate("ddl/branch-errors", fmt.Sprintf("same DDL, different outcomes on two branches: %v vs %v", berrs[0], berrs[1]), d)
 		}
 		if df := diffState(bst[0], bst[1]); df != "" {
 			e.Rep.Violate("ddl/branches", "same DDL on two branches: "+df, d)
@@ -1134,7 +1223,11 @@ func main() {
 	for i, n := 0, e.N(1500, 40000); i < n; i++ {
 		runTag(e, m, genTag(r))
 	}
-	for i, n := 0, e.N(6, 120); i < n; i++ {
+	// fixed scripts with in-place index / column mutations (run on every seed)
+	for _, st := range fixedDDL {
+		runDDL(e, ddlCase{Stream: "ddl", Stmts: st})
+	}
+	for i, n := 0, e.N(10, 120); i < n; i++ {
 		runDDL(e, genDDL(r))
 	}
 }
